@@ -1053,6 +1053,48 @@ func ruleCQEWellFormed(c *Ctx) {
 				})
 				return true
 			})
+			// in that callback the error is recorded exactly when the plugin reported one
+			okDone := false
+			ast.Inspect(fd.Body, func(x ast.Node) bool {
+				fl, isLit := x.(*ast.FuncLit)
+				if !isLit || fl.Type.Params == nil || len(fl.Type.Params.List) < 2 || len(fl.Type.Params.List[1].Names) == 0 {
+					return true
+				}
+				errName := fl.Type.Params.List[1].Names[0].Name
+				env := newProvEnv(pk, fd)
+				errOK, compOK := false, false
+				ast.Inspect(fl.Body, func(y ast.Node) bool {
+					as, isAs := y.(*ast.AssignStmt)
+					if !isAs || len(as.Lhs) != 1 {
+						return true
+					}
+					se, isSel := ast.Unparen(as.Lhs[0]).(*ast.SelectorExpr)
+					if !isSel {
+						return true
+					}
+					conds := env.enclosingConds(fl.Body, as)
+					has := func(a string) bool {
+						for _, c := range conds {
+							if c == a {
+								return true
+							}
+						}
+						return false
+					}
+					switch se.Sel.Name {
+					case "Error":
+						errOK = has("(var:"+errName+" != nil)") || has("(param:"+errName+" != nil)")
+					case "Completion":
+						compOK = has("(var:"+errName+" == nil)") || has("(param:"+errName+" == nil)")
+					}
+					return true
+				})
+				if errOK && compOK {
+					okDone = true
+				}
+				return true
+			})
+			c.check(okDone, "cqe-well-formed/sender-done-branches", fd.Pos(), "the plugin's error becomes the entry's Error, its verdict the Completion", "the sender's Done callback no longer records the plugin's error when there is one and the completion otherwise")
 			c.check(ok, "cqe-well-formed/sender-success", fd.Pos(), "the hand-off's completion reports the success the plugin reported", "the sender's completion no longer carries the plugin's success flag: every hand-off looks failed (retried for ever) or delivered (a failed one is marked enqueued)")
 		}
 	}
@@ -1225,4 +1267,411 @@ func ruleAwaitNonNil(c *Ctx) {
 	}
 	c.count("awaited_slice_entries", n)
 	c.floor("awaits of collected awaitables", n, 3)
+}
+
+// ruleHttpPluginOutcome (C08/C19): the HTTP transport reports a hand-off as delivered only when the
+// receiver answered 200: in HttpWorker.Process every return that carries an error reports false,
+// and the only return without an error reports the comparison of the response's StatusCode (of the
+// request it just sent) with http.StatusOK; the worker passes Process's verdict to the message's
+// Done unchanged.
+func ruleHttpPluginOutcome(c *Ctx) {
+	pk := c.P.Pkg(pkgHttpPlugin)
+	if pk == nil {
+		c.und("http-plugin/outcome", 0, "http plugin package not loaded")
+		return
+	}
+	info := pk.TypesInfo
+	fd := funcDecl(pk, "HttpWorker", "Process")
+	st := funcDecl(pk, "HttpWorker", "Start")
+	if fd == nil || st == nil {
+		c.und("http-plugin/outcome", 0, "HttpWorker.Process / Start not found")
+		return
+	}
+	env := newProvEnv(pk, fd)
+	nErr, nOK := 0, 0
+	okErr, okSucc := true, true
+	var where ast.Node = fd
+	ast.Inspect(fd.Body, func(n ast.Node) bool {
+		if _, isLit := n.(*ast.FuncLit); isLit {
+			return false
+		}
+		rs, ok := n.(*ast.ReturnStmt)
+		if !ok || len(rs.Results) != 2 {
+			return true
+		}
+		_, errNil := info.Uses[identOf(rs.Results[1])].(*types.Nil)
+		if !errNil {
+			nErr++
+			if exprString(rs.Results[0]) != "false" {
+				okErr, where = false, rs
+			}
+			return true
+		}
+		nOK++
+		p := env.prov(rs.Results[0])
+		if !(strings.Contains(p, ".StatusCode == ") && strings.Contains(p, "Do(") && strings.HasSuffix(strings.TrimSuffix(p, ")"), "StatusOK")) {
+			okSucc, where = false, rs
+		}
+		return true
+	})
+	c.check(okErr && nErr >= 3, "http-plugin/error-is-failure", where.Pos(), "every error return reports the hand-off as failed", "the HTTP transport reports a hand-off as delivered on a path that returns an error (the task would be marked enqueued although nothing was delivered)")
+	c.check(okSucc && nOK == 1, "http-plugin/delivered-iff-200", where.Pos(), "delivered ⇔ the receiver answered 200 to this request", "the HTTP transport's success verdict is no longer `response.StatusCode == 200` of the request it sent")
+	// Start: msg.Done(w.Process(msg.Data, msg.Body))
+	passes := false
+	ast.Inspect(st.Body, func(n ast.Node) bool {
+		call, ok := n.(*ast.CallExpr)
+		if !ok || len(call.Args) != 1 {
+			return true
+		}
+		if se, ok := ast.Unparen(call.Fun).(*ast.SelectorExpr); ok && se.Sel.Name == "Done" {
+			if inner, ok := ast.Unparen(call.Args[0]).(*ast.CallExpr); ok {
+				if fn, ok := calleeOf(info, inner).(*types.Func); ok && fn == info.Defs[fd.Name] {
+					passes = true
+				}
+			}
+		}
+		return true
+	})
+	c.check(passes, "http-plugin/verdict-passed-on", st.Pos(), "Done receives Process's verdict unchanged", "the HTTP worker no longer hands Process's (success, error) to the message's Done")
+}
+
+// ruleWorkerLoops (C11/C12): every subsystem / plugin worker serves its queue until it is closed:
+// in `Start`, the loop receives `x, ok := <-w.sq`; the worker returns exactly on the branch where
+// ok is false (and does return there), and on the other branch the received entry is handed to
+// Process before the next receive.
+func ruleWorkerLoops(c *Ctx) {
+	pkgs := append([]string{pkgHttpPlugin}, workerPkgs...)
+	n := 0
+	seen := map[string]bool{}
+	for _, pp := range pkgs {
+		if seen[pp] || pp == pkgPoll {
+			continue // the poll worker multiplexes three channels; its typestate rules are separate
+		}
+		seen[pp] = true
+		pk := c.P.Pkg(pp)
+		if pk == nil {
+			continue
+		}
+		info := pk.TypesInfo
+		for _, fd := range allFuncDecls(pk) {
+			if fd.Name.Name != "Start" || fd.Recv == nil || fd.Body == nil || !strings.HasSuffix(recvTypeName(fd.Recv.List[0].Type), "Worker") || isTestFile(c.P, fd.Pos()) {
+				continue
+			}
+			key := "worker-loop/" + pk.Name + "." + funcName(fd)
+			var recvNode *ast.AssignStmt
+			var xObj, okObj types.Object
+			ast.Inspect(fd.Body, func(nd ast.Node) bool {
+				as, ok := nd.(*ast.AssignStmt)
+				if !ok || len(as.Lhs) != 2 || len(as.Rhs) != 1 {
+					return true
+				}
+				if u, ok := ast.Unparen(as.Rhs[0]).(*ast.UnaryExpr); ok && u.Op.String() == "<-" && strings.HasSuffix(exprString(u.X), ".sq") {
+					recvNode = as
+					if a, ok := as.Lhs[0].(*ast.Ident); ok {
+						xObj = info.Defs[a]
+					}
+					if b, ok := as.Lhs[1].(*ast.Ident); ok {
+						okObj = info.Defs[b]
+					}
+				}
+				return true
+			})
+			if recvNode == nil || xObj == nil || okObj == nil {
+				c.und(key, fd.Pos(), "the worker does not receive `x, ok := <-w.sq`")
+				continue
+			}
+			n++
+			g := buildCFG(pk, fd.Body)
+			okEdge := func(b *cfg.Block, i int) (closed, known bool) {
+				if len(b.Succs) != 2 || len(b.Nodes) == 0 {
+					return false, false
+				}
+				cond, isExpr := b.Nodes[len(b.Nodes)-1].(ast.Expr)
+				if !isExpr {
+					return false, false
+				}
+				cond = ast.Unparen(cond)
+				neg := false
+				for {
+					u, isU := cond.(*ast.UnaryExpr)
+					if !isU || u.Op.String() != "!" {
+						break
+					}
+					neg, cond = !neg, ast.Unparen(u.X)
+				}
+				if !isObj(info, cond, okObj) {
+					return false, false
+				}
+				return (i == 0) == neg, true
+			}
+			edgeFacts := func(b *cfg.Block, i int) []string {
+				if cl, known := okEdge(b, i); known {
+					if cl {
+						return []string{"closed"}
+					}
+					return []string{"open"}
+				}
+				return nil
+			}
+			rets := mustFacts(g, func(ast.Node) []string { return nil }, edgeFacts, func(nd ast.Node) bool { _, isRet := nd.(*ast.ReturnStmt); return isRet })
+			okExit, nExit := true, 0
+			for _, f := range rets {
+				nExit++
+				if !f["closed"] {
+					okExit = false
+				}
+			}
+			closedLoops := false
+			for _, b := range g.Blocks {
+				for i := range b.Succs {
+					if cl, known := okEdge(b, i); known && cl {
+						seenB := map[int32]bool{}
+						var walk func(x *cfg.Block)
+						walk = func(x *cfg.Block) {
+							if seenB[x.Index] {
+								return
+							}
+							seenB[x.Index] = true
+							for _, nd := range x.Nodes {
+								if nd == ast.Node(recvNode) {
+									closedLoops = true
+								}
+							}
+							for _, sc := range x.Succs {
+								walk(sc)
+							}
+						}
+						walk(b.Succs[i])
+					}
+				}
+			}
+			c.check(okExit && nExit >= 1 && !closedLoops, key+"/exit-iff-closed", fd.Pos(), "the worker returns exactly when its queue was closed", "the worker's exit no longer coincides with `queue closed`: it stops serving an open queue (every later submission to this subsystem hangs) or spins on a closed one")
+			// the received entry reaches Process before the next receive
+			set := func(nd ast.Node) bool { return nd == ast.Node(recvNode) }
+			clear := func(nd ast.Node) bool {
+				found := false
+				ast.Inspect(nd, func(x ast.Node) bool {
+					if call, ok := x.(*ast.CallExpr); ok {
+						if se, ok := ast.Unparen(call.Fun).(*ast.SelectorExpr); ok && se.Sel.Name == "Process" {
+							for _, a := range call.Args {
+								if mentionsObj(info, a, xObj) {
+									found = true
+								}
+							}
+						}
+					}
+					return true
+				})
+				return found
+			}
+			clearEdge := func(b *cfg.Block, i int) bool { cl, known := okEdge(b, i); return known && cl }
+			leak, nClear := pendingFlow(g, set, clear, clearEdge, func(b *cfg.Block) bool { return len(b.Nodes) > 0 && b.Nodes[0] == ast.Node(recvNode) })
+			c.check(leak == nil && nClear >= 1, key+"/processed", fd.Pos(), "every received submission is handed to Process before the next receive", "a submission taken from the queue can be dropped without being processed: its completion is never produced")
+		}
+	}
+	c.count("worker_loops", n)
+	c.floor("single-queue worker loops", n, 4)
+}
+
+// ruleCursorCarry (C14): following a cursor continues THE SAME query: in api.SearchPromises /
+// api.SearchSchedules, when a cursor is supplied, every field of the request that the cursor
+// carries (id pattern, states, tags, limit, resume position) replaces the corresponding local, and
+// the request that is returned is built from exactly those locals.
+func ruleCursorCarry(c *Ctx) {
+	pk := c.P.Pkg(pkgSubApi)
+	if pk == nil {
+		c.und("cursor-carry", 0, "api package not loaded")
+		return
+	}
+	info := pk.TypesInfo
+	for _, fn := range []string{"SearchPromises", "SearchSchedules"} {
+		key := "cursor-carry/" + fn
+		fd := funcDecl(pk, "API", fn)
+		if fd == nil {
+			c.und(key, 0, "API."+fn+" not found")
+			continue
+		}
+		// the request literal returned on success
+		var lit *ast.CompositeLit
+		ast.Inspect(fd.Body, func(n ast.Node) bool {
+			if cl, ok := n.(*ast.CompositeLit); ok && namedPkgPath(info.Types[cl].Type) == pkgTApi && strings.HasSuffix(namedName(info.Types[cl].Type), "Request") {
+				lit = cl
+			}
+			return true
+		})
+		if lit == nil {
+			c.und(key, fd.Pos(), "no request literal")
+			continue
+		}
+		st := info.Types[lit].Type.Underlying().(*types.Struct)
+		localOf := map[string]types.Object{}
+		for _, el := range lit.Elts {
+			if kv, ok := el.(*ast.KeyValueExpr); ok {
+				if id, ok := ast.Unparen(kv.Value).(*ast.Ident); ok {
+					localOf[exprString(kv.Key)] = info.Uses[id]
+				}
+			}
+		}
+		var missing []string
+		for i := 0; i < st.NumFields(); i++ {
+			f := st.Field(i).Name()
+			l := localOf[f]
+			if l == nil {
+				missing = append(missing, f+" (not built from a local)")
+				continue
+			}
+			carried := false
+			ast.Inspect(fd.Body, func(n ast.Node) bool {
+				as, ok := n.(*ast.AssignStmt)
+				if !ok || len(as.Lhs) != 1 || len(as.Rhs) != 1 || !isObj(info, as.Lhs[0], l) {
+					return true
+				}
+				if se, ok := ast.Unparen(as.Rhs[0]).(*ast.SelectorExpr); ok && se.Sel.Name == f {
+					if inner, ok := ast.Unparen(se.X).(*ast.SelectorExpr); ok && inner.Sel.Name == "Next" {
+						// governed by the cursor test
+						for _, a := range enclosing(fd.Body, as) {
+							if ifs, ok := a.(*ast.IfStmt); ok && strings.Contains(exprString(ifs.Cond), "cursor") && containsNode(ifs.Body, as) {
+								carried = true
+							}
+						}
+					}
+				}
+				return true
+			})
+			if !carried {
+				missing = append(missing, f)
+			}
+		}
+		c.check(len(missing) == 0, key, lit.Pos(), "with a cursor, every field of the query is taken from the cursor", "api."+fn+" does not carry "+strings.Join(missing, ", ")+" over from the cursor: the next page is computed for a different query (unfiltered results, or pages that repeat / skip)")
+	}
+}
+
+// ruleRequestWrapper (C12/C13): the kernel wraps every request coroutine (System.AddOnRequest): the
+// wrapper installs the configuration the coroutines read (c.Set("config", …) before the coroutine
+// body runs — ClaimTask panics without it) and answers with one completion entry that carries the
+// coroutine's response, its error and the request's callback.
+func ruleRequestWrapper(c *Ctx) {
+	pk := c.P.Pkg(pkgSystem)
+	fd := funcDecl(pk, "System", "AddOnRequest")
+	if fd == nil {
+		c.und("request-wrapper", 0, "System.AddOnRequest not found")
+		return
+	}
+	info := pk.TypesInfo
+	ctor := paramObjOf(info, fd.Type, 1)
+	// the innermost function literal: the coroutine body
+	var inner *ast.FuncLit
+	ast.Inspect(fd.Body, func(n ast.Node) bool {
+		if fl, ok := n.(*ast.FuncLit); ok {
+			inner = fl
+		}
+		return true
+	})
+	if inner == nil || ctor == nil {
+		c.und("request-wrapper", fd.Pos(), "wrapper shape not recognised")
+		return
+	}
+	g := buildCFG(pk, inner.Body)
+	gen := func(n ast.Node) []string {
+		for _, call := range callsIn(n) {
+			if se, ok := ast.Unparen(call.Fun).(*ast.SelectorExpr); ok && se.Sel.Name == "Set" && len(call.Args) == 2 {
+				if k, ok := constString(info, call.Args[0]); ok && k == "config" && strings.HasSuffix(exprString(call.Args[1]), ".config") {
+					return []string{"config-set"}
+				}
+			}
+		}
+		return nil
+	}
+	runs := mustFacts(g, gen, nil, func(n ast.Node) bool {
+		for _, call := range callsIn(n) {
+			if isObj(info, call.Fun, ctor) {
+				return true
+			}
+		}
+		return false
+	})
+	ok := len(runs) == 1
+	for _, f := range runs {
+		if !f["config-set"] {
+			ok = false
+		}
+	}
+	c.check(ok, "request-wrapper/config", inner.Pos(), "the configuration is installed before the coroutine body runs", "the request wrapper runs the coroutine without installing the configuration first: coroutines that read it (ClaimTask) panic on the kernel goroutine")
+	// the completion entry
+	var lit *ast.CompositeLit
+	ast.Inspect(inner.Body, func(n ast.Node) bool {
+		if cl, ok := n.(*ast.CompositeLit); ok && isNamed(info.Types[cl].Type, pkgBus, "CQE") {
+			lit = cl
+		}
+		return true
+	})
+	fields := map[string]string{}
+	if lit != nil {
+		for _, el := range lit.Elts {
+			if kv, ok := el.(*ast.KeyValueExpr); ok {
+				fields[exprString(kv.Key)] = exprString(kv.Value)
+			}
+		}
+	}
+	cb := ""
+	// the callback parameter of the middle function literal
+	ast.Inspect(fd.Body, func(n ast.Node) bool {
+		if fl, ok := n.(*ast.FuncLit); ok && fl != inner && fl.Type.Params != nil && len(fl.Type.Params.List) == 2 && len(fl.Type.Params.List[1].Names) == 1 {
+			cb = fl.Type.Params.List[1].Names[0].Name
+		}
+		return true
+	})
+	c.check(lit != nil && fields["Completion"] != "" && fields["Error"] != "" && cb != "" && fields["Callback"] == cb, "request-wrapper/completion", inner.Pos(), "the wrapper answers with the coroutine's response and error and the request's callback", "the request wrapper's completion entry does not carry the coroutine's response, its error and the request's callback: the request is never answered")
+}
+
+// ruleWorkerEntriesCarryCallback (C12): every completion entry a subsystem worker builds for a
+// submission carries that submission's callback (and id): without the callback the kernel cannot
+// resume the coroutine that is waiting for it.
+func ruleWorkerEntriesCarryCallback(c *Ctx) {
+	n := 0
+	seen := map[string]bool{}
+	for _, pp := range workerPkgs {
+		if seen[pp] {
+			continue
+		}
+		seen[pp] = true
+		pk := c.P.Pkg(pp)
+		if pk == nil {
+			continue
+		}
+		info := pk.TypesInfo
+		for _, fd := range allFuncDecls(pk) {
+			if fd.Body == nil || isTestFile(c.P, fd.Pos()) {
+				continue
+			}
+			occ := 0
+			ast.Inspect(fd.Body, func(x ast.Node) bool {
+				cl, ok := x.(*ast.CompositeLit)
+				if !ok || !isNamed(info.Types[cl].Type, pkgBus, "CQE") {
+					return true
+				}
+				if tv := info.Types[cl]; !strings.Contains(types.TypeString(tv.Type, nil), "t_aio") {
+					return true
+				}
+				n++
+				occ++
+				cb, id := "", ""
+				for _, el := range cl.Elts {
+					if kv, ok := el.(*ast.KeyValueExpr); ok {
+						switch exprString(kv.Key) {
+						case "Callback":
+							cb = exprString(kv.Value)
+						case "Id":
+							id = exprString(kv.Value)
+						}
+					}
+				}
+				okLit := strings.HasSuffix(cb, ".Callback") && strings.HasSuffix(id, ".Id") && strings.TrimSuffix(cb, ".Callback") == strings.TrimSuffix(id, ".Id")
+				c.check(okLit, fmt.Sprintf("worker-entry/%s.%s#%d", pk.Name, funcName(fd), occ), cl.Pos(), "the entry carries the submission's id and callback", "a completion entry is built without the submission's callback (or id): the coroutine awaiting this submission is never resumed")
+				return true
+			})
+		}
+	}
+	c.count("worker_completion_entries", n)
+	c.floor("completion entries built by workers", n, 3)
 }
